@@ -863,12 +863,15 @@ class Skel:
             self.records[tyname] = fields
         return self.records[tyname]
 
-    # -- abstract values: (tabs: frozenset of table names, struct: dict field -> value or None, fn: function name or None)
+    # -- abstract values: (tabs: frozenset of table names the value points into,
+    #                       struct: dict field -> value (a callback-argument struct of the caller) or None,
+    #                       fn: name of the function the value is, or None,
+    #                       const: known integer constant (only tracked through callback-argument structs), or None)
     @staticmethod
-    def val(tabs=(), struct=None, fn=None):
-        return (frozenset(tabs), struct, fn)
+    def val(tabs=(), struct=None, fn=None, const=None):
+        return (frozenset(tabs), struct, fn, const)
 
-    NOVAL = (frozenset(), None, None)
+    NOVAL = (frozenset(), None, None, None)
 
     @staticmethod
     def ptrish(n):
@@ -897,7 +900,7 @@ class Skel:
                 env[p["id"]] = self.val([p["name"]]) if TABLE_TYPE.match(ty) else self.NOVAL
             else:
                 env[p["id"]] = args[i] if i < len(args) else self.NOVAL
-        ctx = {"env": env, "depth": depth, "top": top or name, "ret": self.NOVAL}
+        ctx = {"env": env, "depth": depth, "top": top or name, "ret": self.NOVAL, "ctl": 0}
         self.stmt(body, ctx)          # first passes: only to propagate "points into table" to a fixpoint
         self.stmt(body, ctx)
         return self.stmt(body, ctx), ctx["ret"]
@@ -1013,6 +1016,20 @@ class Skel:
                     l0 = inner(l0)[0]
                 if l0.get("kind") == "DeclRefExpr":
                     self.bind(ctx, l0.get("referencedDecl", {}).get("id"), rv)
+                if l0.get("kind") == "MemberExpr" and not l0.get("isArrow"):
+                    b0 = inner(l0)[0]
+                    while b0.get("kind") == "ParenExpr":
+                        b0 = inner(b0)[0]
+                    if b0.get("kind") == "DeclRefExpr":
+                        sv = ctx["env"].get(b0.get("referencedDecl", {}).get("id"), self.NOVAL)
+                        if sv[1] is not None:
+                            # args.field = e : flow-sensitive only in straight-line code of the function body
+                            sv[1][l0.get("name")] = rv if (ctx["ctl"] == 0 and op == "=") else self.NOVAL
+                if l0.get("kind") == "MemberExpr" and l0.get("isArrow"):
+                    # args->field = e inside a callback: the field is no longer a known constant
+                    _, bv = self.expr(inner(l0)[0], ctx)
+                    if bv[1] is not None:
+                        bv[1][l0.get("name")] = (rv[0], rv[1], rv[2], None)
                 return evs, rv
             if op in ("&&", "||"):
                 ev_l, _ = self.expr(lhs, ctx)
@@ -1049,7 +1066,12 @@ class Skel:
             # lvalue in a non-converting context (operand of sizeof is not visited; struct passed by address)
             ev, tabs, v = self.designates(n, ctx)
             return ev, v
-        if k in ("UnaryExprOrTypeTraitExpr", "IntegerLiteral", "StringLiteral", "CharacterLiteral", "FloatingLiteral",
+        if k == "IntegerLiteral":
+            try:
+                return [], self.val(const=int(n.get("value", "x")))
+            except ValueError:
+                return [], self.NOVAL
+        if k in ("UnaryExprOrTypeTraitExpr", "StringLiteral", "CharacterLiteral", "FloatingLiteral",
                  "ImplicitValueInitExpr", "CompoundLiteralExpr", "PredefinedExpr"):
             return [], self.NOVAL
         if k == "StmtExpr":
@@ -1065,7 +1087,7 @@ class Skel:
         if name is None:
             return
         old = ctx["env"].get(name, self.NOVAL)
-        ctx["env"][name] = (old[0] | v[0], v[1] if v[1] is not None else old[1], v[2] or old[2])
+        ctx["env"][name] = (old[0] | v[0], v[1] if v[1] is not None else old[1], v[2] or old[2], None)
 
     def invoke(self, fnval, argvals, ctx, what):
         """a call through a function pointer whose target may be known"""
@@ -1100,6 +1122,13 @@ class Skel:
             evs += e
             vals.append(v)
         tabs = frozenset().union(*[v[0] for v in vals]) if vals else frozenset()
+        if not (dk == "FunctionDecl" and self.fdef(name) is not None and name not in HELPER_RW):
+            # the callee's body is not analysed: a callback-argument struct handed to it may be changed there
+            for v in vals:
+                if v[1] is not None and not (dk == "FunctionDecl" and isinstance(HELPER_RW.get(name), tuple)):
+                    for f in list(v[1]):
+                        x = v[1][f]
+                        v[1][f] = (x[0], x[1], x[2], None)
         if dk == "FunctionDecl" and name in HELPER_RW:
             spec = HELPER_RW[name]
             mode, cbi, dti = (spec, None, None) if isinstance(spec, str) else spec
@@ -1133,6 +1162,32 @@ class Skel:
         e, fv = self.expr(ins[0], ctx)
         return evs + e + self.invoke(fv, vals, ctx, self.label(fnode)), self.NOVAL
 
+    def truth(self, n, ctx):
+        """True / False when the condition is a known constant (a flag passed through a callback-argument struct
+        that the caller set in straight-line code), else None"""
+        k = n.get("kind")
+        if k in ("ParenExpr", "ImplicitCastExpr", "CStyleCastExpr"):
+            return self.truth(inner(n)[-1], ctx)
+        if k == "UnaryOperator" and n.get("opcode") == "!":
+            t = self.truth(inner(n)[0], ctx)
+            return None if t is None else (not t)
+        if k == "BinaryOperator" and n.get("opcode") in ("&&", "||"):
+            a, b = self.truth(inner(n)[0], ctx), self.truth(inner(n)[1], ctx)
+            if n["opcode"] == "&&":
+                if a is False or b is False:
+                    return False
+                return True if (a is True and b is True) else None
+            if a is True or b is True:
+                return True
+            return False if (a is False and b is False) else None
+        if k in ("MemberExpr", "IntegerLiteral"):
+            if k == "IntegerLiteral":
+                _, v = self.expr(n, ctx)
+            else:
+                _, _, v = self.designates(n, ctx)
+            return None if v[3] is None else (v[3] != 0)
+        return None
+
     # -- statements
     def stmt(self, s, ctx):
         k = s.get("kind")
@@ -1146,31 +1201,45 @@ class Skel:
                 e, v = self.expr(c, ctx)
                 evs += e
                 old = ctx["ret"]
-                ctx["ret"] = (old[0] | v[0], old[1] or v[1], old[2] or v[2])
+                ctx["ret"] = (old[0] | v[0], old[1] or v[1], old[2] or v[2], None)
             return mk_seq(evs + [("ret",)])
         if k == "IfStmt":
             ins = inner(s)
             ev, _ = self.expr(ins[0], ctx)
+            known = self.truth(ins[0], ctx)
+            ctx["ctl"] += 1
             a = self.stmt(ins[1], ctx)
             b = self.stmt(ins[2], ctx) if len(ins) > 2 else ("skip",)
+            ctx["ctl"] -= 1
+            if known is True:
+                return mk_seq(ev + [a])
+            if known is False:
+                return mk_seq(ev + [b])
             if not (has_effect(a) or has_effect(b) or has_ctl(a) or has_ctl(b)):
                 return mk_seq(ev)
             return mk_seq(ev + [mk_alt(a, b)])
         if k == "WhileStmt":
             c, body = inner(s)[-2:]
+            ctx["ctl"] += 1
             ev, _ = self.expr(c, ctx)
-            return mk_loop(mk_seq(ev + [mk_alt(("brk",), self.stmt(body, ctx))]))
+            p = mk_loop(mk_seq(ev + [mk_alt(("brk",), self.stmt(body, ctx))]))
+            ctx["ctl"] -= 1
+            return p
         if k == "DoStmt":
             body, c = inner(s)[:2]
+            ctx["ctl"] += 1
             b = self.stmt(body, ctx)
             ev, _ = self.expr(c, ctx)
+            ctx["ctl"] -= 1
             return mk_loop(mk_seq([b] + ev + [mk_alt(("brk",), ("skip",))]))
         if k == "ForStmt":
             init, _cv, c, inc, body = (s.get("inner", []) + [{}] * 5)[:5]
             pi = self.stmt(init, ctx) if init.get("kind") else ("skip",)
+            ctx["ctl"] += 1
             ev_c, _ = self.expr(c, ctx) if c.get("kind") else ([], None)
             b = self.stmt(body, ctx)
             ev_i, _ = self.expr(inc, ctx) if inc.get("kind") else ([], None)
+            ctx["ctl"] -= 1
             return mk_seq([pi, mk_loop(mk_seq(ev_c + [mk_alt(("brk",), mk_seq([b] + ev_i))]))])
         if k == "BreakStmt":
             return ("brk",)
@@ -1191,7 +1260,7 @@ class Skel:
                                 _, fv = self.expr(ic, ctx)
                                 st[f] = fv
                             if any(x != self.NOVAL for x in st.values()):
-                                v = (frozenset(), st, None)
+                                v = (frozenset(), st, None, None)
                         self.bind(ctx, d.get("id"), v)
                     else:
                         e, v = self.expr(c, ctx)
